@@ -48,6 +48,12 @@ def quiet():
     _quiet_done = True
 
 
+def log_level(level):
+    """Records are always dropped (NullHandler, no propagation); DEBUG makes every level-gated path run."""
+    quiet()
+    logging.getLogger("paramiko").setLevel(level)
+
+
 def exn_code(e):
     if e is None:
         return 0
@@ -63,7 +69,7 @@ def exn_code(e):
 class Pair:
     """In-process client/server Transport pair over tests/_loop.LoopSocket with recording packetizers."""
 
-    def __init__(self, client_srt=False, auth=True):
+    def __init__(self, client_srt=False, auth=True, hexdump=False):
         import paramiko
         from paramiko.packet import Packetizer
         from paramiko.transport import Transport, ServiceRequestingTransport
@@ -106,6 +112,14 @@ class Pair:
         self.tc = ccls(a, packetizer_class=RecP)
         self.ts = Transport(b, packetizer_class=RecP)
         self.ts.add_server_key(_host_key())
+        self.hexdump = hexdump
+        if hexdump:
+            # every logging-dependent path on: packet hexdump in the packetizers, DEBUG level on the logger
+            log_level(logging.DEBUG)
+            self.tc.set_hexdump(True)
+            self.ts.set_hexdump(True)
+        else:
+            log_level(logging.CRITICAL)
         self.client_srt = client_srt
         self.authed = False
         ev = threading.Event()
@@ -170,6 +184,7 @@ class Pair:
                 pass
         for t in (self.tc, self.ts):
             t.join(2)
+        log_level(logging.CRITICAL)
 
 
 _KEY = None
@@ -244,7 +259,8 @@ def next_rx(t, timeout):
 
 def probe(ctx, pair, sender, receiver, role, ptype, payload, sentinel, fails):
     """Send one unhandled packet; returns (seq, observed canonical outcome) and runs the oracle."""
-    case = {"receiver": role, "state": list(state_of(receiver)), "ptype": ptype, "payload": payload}
+    case = {"receiver": role, "state": list(state_of(receiver)), "ptype": ptype, "payload": payload,
+            "hexdump": pair.hexdump, "rekey_in_progress": False}
     pair.drain()
     try:
         seq = send_raw(sender, ptype, payload)
@@ -257,6 +273,14 @@ def probe(ctx, pair, sender, receiver, role, ptype, payload, sentinel, fails):
         fails.append(("unimplemented-answered", "an UNIMPLEMENTED message was itself answered (the two ends now "
                       "bounce UNIMPLEMENTED back and forth)", case, {"receiver_read": got_in}))
         return seq, [0, 100]
+    if got_in is None:
+        time.sleep(0.05)
+        if not receiver.is_active():
+            fails.append(("unhandled-type-kills-transport",
+                          "an unhandled message type killed the transport while it was being read, instead of being "
+                          "answered with UNIMPLEMENTED (%s)" % type(receiver.saved_exception).__name__,
+                          case, repr(receiver.saved_exception)))
+            return seq, [0, exn_code(receiver.saved_exception)]
     if got_in is None or got_in[0] != ptype:
         fails.append(("packet-not-received", "receiver did not read the packet", case, repr(got_in)))
         return seq, [0, 100]
@@ -332,8 +356,8 @@ def sweep(ctx, pair, role, npay, cases_dispatch, model_sets):
             ctx.count((role, st, p, payload), nontrivial=True,
                       kind="%s-%s" % (role, "unnamed" if p not in names else ("type3" if p == 3 else "named")))
             if seq is not None:
-                cases_dispatch.append(((st[0], st[1], st[2], st[3], p, seq), obs, {"receiver": role, "ptype": p,
-                                                                                   "payload": payload}))
+                cases_dispatch.append(((st[0], st[1], st[2], st[3], False, p, seq), obs,
+                                       {"receiver": role, "ptype": p, "payload": payload, "hexdump": pair.hexdump}))
             if obs[0] == 0 or any(f[0] == "unimplemented-answered" for f in fails):
                 ok = False      # dead, or two paramiko ends now bounce UNIMPLEMENTED forever: stop this configuration
                 break
@@ -381,7 +405,7 @@ def burst(ctx, pair, role, n, cases_stream, wrap=False):
         flat += [rep[0]] + list(rep[2])
     extra = next_rx(sender, 0.2)
     alive = receiver.is_active()
-    case = {"receiver": role, "state": list(st), "seq0": seq0, "ptypes": pkts}
+    case = {"receiver": role, "state": list(st), "seq0": seq0, "ptypes": pkts, "hexdump": pair.hexdump}
     ctx.count(("burst", role, st, seq0, tuple(pkts)), nontrivial=True, kind="burst-wrap" if wrap else "burst")
     if got != [(3, s) for s in want] or extra is not None or not alive:
         ctx.fail("stream-replies" if alive else "unhandled-type-kills-transport",
@@ -391,8 +415,111 @@ def burst(ctx, pair, role, n, cases_stream, wrap=False):
                  case=case, expected=[(3, s) for s in want], observed={"replies": got, "extra": repr(extra),
                                                                        "alive": alive,
                                                                        "exc": repr(receiver.saved_exception)})
-    cases_stream.append(((st[0], st[1], st[2], st[3], seq0, pkts), flat + [1 if alive else 0], case))
+    cases_stream.append(((st[0], st[1], st[2], st[3], False, seq0, pkts), flat + [1 if alive else 0], case))
     return alive
+
+
+def rekey_window(ctx, pair, role, types, cases_dispatch):
+    """Unknown types that reach a transport while its own re-key is in progress (own KEXINIT sent,
+    clear_to_send cleared, peer's KEXINIT not yet received).  The peer's KEXINIT handler (instance table) is
+    wrapped: on receiving the re-keyer's KEXINIT it first sends the unknown packets and reads the answers in
+    its own reader thread, then goes on with the key exchange.  Returns False if the receiver died."""
+    from paramiko.common import MSG_KEXINIT
+    R = pair.ts if role == "server" else pair.tc          # re-keys, and receives the unknown types
+    P = pair.tc if role == "server" else pair.ts
+    st = state_of(R)
+    R.clear_to_send_timeout = 2.0      # a reply that waits for clear_to_send fails after 2 s instead of 30 s
+    pair.drain()
+    orig = P._handler_table[MSG_KEXINIT]
+    results, fired, done = [], [], threading.Event()
+
+    def hook(m):
+        if not fired:
+            fired.append(1)
+            try:
+                for p, payload in types:
+                    seq = send_raw(P, p, payload)
+                    if p == 3:
+                        results.append((p, payload, seq, "silent"))
+                        continue
+                    t, rm = P.packetizer.read_message()
+                    results.append((p, payload, seq, (t, bytes(rm.asbytes()))))
+                    if t != 3:
+                        break
+            except Exception as e:
+                results.append((types[len(results)][0], types[len(results)][1], None, e))
+            finally:
+                done.set()
+        return orig(m)
+
+    P._handler_table[MSG_KEXINIT] = hook
+    guard = threading.Timer(WATCH, lambda: (not done.is_set()) and P.packetizer.close())
+    guard.daemon = True
+    guard.start()
+    try:
+        rk_st, rk_v = with_watchdog(R.renegotiate_keys, 2 * WATCH)
+        done.wait(WATCH)
+    finally:
+        guard.cancel()
+        P._handler_table[MSG_KEXINIT] = orig
+    alive = R.is_active()
+    ok = True
+    for p, payload, seq, rep in results:
+        case = {"receiver": role, "state": list(st), "ptype": p, "payload": payload, "hexdump": pair.hexdump,
+                "rekey_in_progress": True}
+        ctx.count(("rekey", role, st, p, payload), nontrivial=True, kind="rekey-window-%s" % role)
+        if rep == "silent":
+            cases_dispatch.append(((st[0], st[1], st[2], st[3], True, p, seq), [2], case))
+            continue
+        if isinstance(rep, Exception) or rep[0] != 3 or len(rep[1]) != 4 or int.from_bytes(rep[1], "big") != seq:
+            ok = False
+            for _ in range(20):
+                if not R.is_active() and R.saved_exception is not None:
+                    break
+                time.sleep(0.05)
+            dead = not R.is_active()
+            ctx.fail("no-reply-during-rekey" if isinstance(rep, Exception) else "wrong-reply-during-rekey",
+                     "an unhandled type that arrived while the receiver's own re-key was in progress was not "
+                     "answered with UNIMPLEMENTED + its sequence number%s" %
+                     (" and the transport died (%r)" % (R.saved_exception,) if dead else ""),
+                     case=case, expected=[3, seq], observed=repr(rep))
+            if seq is not None:
+                obs = [0, exn_code(R.saved_exception)] if dead else (
+                    [2] if isinstance(rep, Exception) else [1, rep[0]] + list(rep[1]))
+                cases_dispatch.append(((st[0], st[1], st[2], st[3], True, p, seq), obs, case))
+            break
+        cases_dispatch.append(((st[0], st[1], st[2], st[3], True, p, seq), [1, 3] + list(rep[1]), case))
+    if not results:
+        ok = False
+        ctx.fail("rekey-window-not-reached", "the peer never saw the re-keyer's KEXINIT", case={"receiver": role},
+                 observed=repr((rk_st, rk_v)))
+    if ok and (rk_st != "ok" or not R.is_active() or not P.is_active()):
+        ok = False
+        ctx.fail("rekey-fails-after-unknown", "the re-key did not complete after unknown types were answered",
+                 case={"receiver": role, "state": list(st), "hexdump": pair.hexdump},
+                 observed=repr((rk_st, rk_v, R.saved_exception, P.saved_exception)))
+    if ok and pair.chan is not None and not pair.ping(b"-rk"):
+        ok = False
+        ctx.fail("session-stalled", "open channel stopped carrying data after the re-key with unknown types",
+                 case={"receiver": role, "hexdump": pair.hexdump})
+    return ok and R.is_active()
+
+
+def window_types(ctx, receiver, n):
+    rng = ctx.rng
+    import paramiko
+    names = paramiko.common.MSG_NAMES
+    types = live_unhandled(receiver)
+    unnamed = [p for p in types if p not in names]
+    named = [p for p in types if p in names and p != 3]
+    if n is None:
+        pick = list(types)
+        rng.shuffle(pick)
+    else:
+        pick = [rng.choice(unnamed), rng.choice(named), 3] + [rng.choice(types) for _ in range(n - 4)]
+        rng.shuffle(pick)
+    pick.append(rng.choice(unnamed))            # never end on the silent type
+    return [(p, rand_payload(rng)) for p in pick]
 
 
 def followup(ctx, pair, label):
@@ -411,8 +538,8 @@ def followup(ctx, pair, label):
                  case={"config": label}, observed=repr(v if st == "ok" else st))
 
 
-def run_config(ctx, label, client_srt, auth, npay, cases_dispatch, cases_stream, model_sets):
-    pair = Pair(client_srt=client_srt, auth=auth)
+def run_config(ctx, label, client_srt, auth, npay, cases_dispatch, cases_stream, model_sets, hexdump=False):
+    pair = Pair(client_srt=client_srt, auth=auth, hexdump=hexdump)
     try:
         # the server's state in the srt configuration is the one already swept in the classic one
         for role in (("client",) if client_srt else ("server", "client")):
@@ -421,6 +548,10 @@ def run_config(ctx, label, client_srt, auth, npay, cases_dispatch, cases_stream,
                 alive = burst(ctx, pair, role, 40 if ctx.thorough else 16, cases_stream)
             if alive and auth:
                 alive = burst(ctx, pair, role, 12, cases_stream, wrap=True)
+            if alive and auth and not client_srt:
+                receiver = pair.ts if role == "server" else pair.tc
+                alive = rekey_window(ctx, pair, role, window_types(ctx, receiver, None if ctx.thorough else 24),
+                                     cases_dispatch)
             if not alive:
                 return
         if not auth:
@@ -435,11 +566,14 @@ def run_config(ctx, label, client_srt, auth, npay, cases_dispatch, cases_stream,
 
 
 def run(ctx):
-    ctx.rule = ("exhaustive: for each of 3 loopback configurations (classic client, ServiceRequestingTransport "
-                "client, before authentication) and both receiving roles, every type 0..255 that no live handler "
+    ctx.rule = ("exhaustive: for each of 5 loopback configurations (classic client, ServiceRequestingTransport "
+                "client, before authentication; classic and pre-auth again with packet hexdump + DEBUG logging "
+                "switched on) and both receiving roles, every type 0..255 that no live handler "
                 "table takes is sent by the raw peer with seeded random payloads (empty, short, channel-id-like, "
                 "string-like, 0xff runs, long), in shuffled order; plus bursts of 12-40 packets incl. across the "
-                "2^32 sequence wrap; a case = (state, type, payload) and every case is non-trivial (it reaches the "
+                "2^32 sequence wrap; plus, in both roles, 24 (quick) / all (thorough) unhandled types delivered while the "
+                "receiver's own re-key is in progress (own KEXINIT sent, peer's withheld), after which the re-key "
+                "must complete and the channel must still carry data; a case = (state, type, payload) and every case is non-trivial (it reaches the "
                 "fallback branch)")
     ctx.trusted += ["order of the dispatch ladder in coq/Model/C12.v is hand-written; tables, MSG_NAMES and the "
                     "name-lookup form are regenerated by gen/c12.py on every run",
@@ -449,11 +583,14 @@ def run(ctx):
     ctx.prove()
     npay = 3 if ctx.thorough else 1
     cases_dispatch, cases_stream, model_sets = [], [], []
-    for label, srt, auth in (("classic-authed", False, True), ("srt-authed", True, True),
-                             ("classic-preauth", False, False)):
+    for label, srt, auth, hexdump in (("classic-authed", False, True, False),
+                                      ("classic-authed-hexdump", False, True, True),
+                                      ("srt-authed", True, True, False),
+                                      ("classic-preauth", False, False, False),
+                                      ("classic-preauth-hexdump", False, False, True)):
         t0 = time.time()
-        st, v = with_watchdog(lambda: run_config(ctx, label, srt, auth, npay, cases_dispatch, cases_stream,
-                                                 model_sets), 240)
+        st, v = with_watchdog(lambda: run_config(ctx, label, srt, auth, 1 if hexdump else npay, cases_dispatch,
+                                                 cases_stream, model_sets, hexdump), 240)
         ctx.log("config %s: %s, %d cases so far (%.1fs)" % (label, st, len(cases_dispatch), time.time() - t0))
         if st == "exc":
             raise v
@@ -471,12 +608,12 @@ def run(ctx):
             if got != types:
                 ctx.disagree("set of unhandled types differs between model and live handler tables",
                              case={"state": list(st)}, model=got, impl=types)
-        bad = ctx.model_mismatches("run_dispatch", "(bool * bool * Z * bool * Z * Z)",
+        bad = ctx.model_mismatches("run_dispatch", "(bool * bool * Z * bool * bool * Z * Z)",
                                    [(coq(c), o) for c, o, _ in cases_dispatch], shard=400)
         for i in bad[:3]:
             ctx.disagree("outcome for an unhandled type differs from the model", case=cases_dispatch[i][2],
                          impl=cases_dispatch[i][1])
-        bad = ctx.model_mismatches("run_stream_case", "(bool * bool * Z * bool * Z * list Z)",
+        bad = ctx.model_mismatches("run_stream_case", "(bool * bool * Z * bool * bool * Z * list Z)",
                                    [(coq(c), o) for c, o, _ in cases_stream])
         for i in bad[:3]:
             ctx.disagree("replies to a burst differ from the model", case=cases_stream[i][2],
@@ -494,11 +631,15 @@ def replay(ctx, rep):
         return run(ctx)
     role = case["receiver"]
     stt = case.get("state", [role == "server", True, 1, False])
-    pair = Pair(client_srt=bool(stt[3]) if role == "client" else False, auth=bool(stt[1]))
+    pair = Pair(client_srt=bool(stt[3]) if role == "client" else False, auth=bool(stt[1]),
+                hexdump=bool(case.get("hexdump")))
     try:
         receiver = pair.ts if role == "server" else pair.tc
         sender = pair.tc if role == "server" else pair.ts
         payload = bytes.fromhex(case["payload"]["hex"]) if isinstance(case["payload"], dict) else b""
+        if case.get("rekey_in_progress"):
+            rekey_window(ctx, pair, role, [(case["ptype"], payload), (case["ptype"], payload)], [])
+            return
         names = pair.paramiko.common.MSG_NAMES
         sentinel = [p for p in live_unhandled(receiver) if p in names and p != 3][0]
         fails = []
